@@ -13,9 +13,15 @@ RULE = ("file trees over pyscript/*.py, scripts/**, apps/<a>.py, apps/<a>/__init
         "modules/<m>/__init__.py + siblings with generated (acyclic, plus one cyclic family) import edges; sequences of "
         "write / modify-keeping-mtime / touch / delete / rename-with-# (file and directory) / app-config add-change-remove "
         "steps, each followed by reload(None | name | '*').  Every script's first line records (context name, source "
-        "generation).  A case is non-trivial when at least one reload loads or discards something; distinct by payload.")
+        "generation).  A case is non-trivial when at least one reload loads or discards something; distinct by payload.  "
+        "Family `lazy` (oracle only, no Lean column): scripts / apps whose @service bodies execute `import <module>` the "
+        "first time they are called; steps `call these services` between default reloads, histories of 4-12 steps with at "
+        "least three reloads; the oracle keeps its own account of the edges added at run time and demands that every "
+        "context that imports a changed module directly or transitively BY THE GRAPH AS OF NOW is re-executed (load "
+        "events, context identities) and that a service afterwards uses the module that is loaded now.")
 ASSUMPTIONS = [
-    "what a script imports is a function of its source text (model parameter `prog`); scripts do nothing else at load",
+    "what a script imports WHILE IT LOADS is a function of its source text (model parameter `prog`); imports executed later "
+    "inside function bodies are outside the Lean model and covered by the oracle-only family `lazy`",
     "path components contain no '.' or '/' (context names are rendered by joining components with '.')",
     "glob.glob / sorted / os.path.isfile / os.path.getmtime behave as documented (directory listing is an input)",
     "Python's RecursionError on cyclic pyscript imports is modelled as fuel exhaustion (cyclic family: oracle only)",
@@ -83,16 +89,37 @@ MUTATIONS = ['pyscript.app_config.setdefault("interval", 60)',
              'pyscript.app_config.setdefault("sub", {})["n"] = 1']
 
 
-def script_text(gen, imports, mut=None):
+def lazy_svc(owner, mod):
+    """name of the service of context `owner` that imports `mod` inside its body"""
+    return "lz_" + owner.replace(".", "_") + "_" + mod.replace(".", "_")
+
+
+def script_text(gen, imports, mut=None, lazy=None, val=False, owner=None):
     if gen in EMPTY_ID:
         return EMPTY_TEXT[EMPTY_ID.index(gen)]
     lines = [f"rec('load', pyscript.get_global_ctx(), {gen})"]
+    if val:
+        lines.append(f"GEN = {gen}")
+    if lazy:
+        # services that execute an `import` statement INSIDE their body, the first time they run (seeded change C10_7:
+        # the edge is recorded when the statement executes - between two reloads - not while the file loads); the
+        # module object is kept in a global, as a script that uses it later would
+        lines.append("_lz = {}")
+        for mod in lazy:
+            lines += ["@service", f"def {lazy_svc(owner, mod)}():", f"    if '{mod}' not in _lz:",
+                      f"        import {mod}", f"        _lz['{mod}'] = {mod}",
+                      f"    rec('use', pyscript.get_global_ctx(), {gen}, '{mod}', _lz['{mod}'].GEN)"]
     for level, mod in imports:
         lines.append(f"import {mod}" if level == 0 else f"from {'.' * level} import {mod}")
     if mut is not None:
         # only configured apps with a non-empty configuration have the variable
         lines += ["try:", "    " + MUTATIONS[mut % len(MUTATIONS)], "except NameError:", "    pass"]
     return "\n".join(lines) + "\n"
+
+
+def file_text(rel, v):
+    return script_text(v["gen"], v["imports"], v.get("mut"), v.get("lazy"), v.get("val", False),
+                       doc_name(comps(rel.replace("#", ""))))
 
 
 def rand_imports(rng, rel, sibrel, present=None):
@@ -171,6 +198,9 @@ class Sim:
             self.disk[op["rel"]] = {"gen": g, "mtime": mt, "imports": op["imports"]}
             if op.get("mut") is not None and g not in EMPTY_ID:
                 self.disk[op["rel"]]["mut"] = op["mut"]
+            for k2 in ("lazy", "val"):
+                if op.get(k2):
+                    self.disk[op["rel"]][k2] = op[k2]
             self.prog[g] = op["imports"]
             self.hist.setdefault(op["rel"], []).append(dict(self.disk[op["rel"]]))
             self.ever.add(op["rel"])
@@ -178,7 +208,7 @@ class Sim:
                 p = os.path.join(root, op["rel"])
                 os.makedirs(os.path.dirname(p), exist_ok=True)
                 with open(p, "w") as f:
-                    f.write(script_text(g, op["imports"], self.disk[op["rel"]].get("mut")))
+                    f.write(file_text(op["rel"], self.disk[op["rel"]]))
                 os.utime(p, (mt, mt))
         elif k == "restore":
             # put an earlier version of the file back: identical content, with its old mtime ("same") or a new one -
@@ -194,7 +224,7 @@ class Sim:
                     p = os.path.join(root, op["rel"])
                     os.makedirs(os.path.dirname(p), exist_ok=True)
                     with open(p, "w") as f:
-                        f.write(script_text(v["gen"], v["imports"], v.get("mut")))
+                        f.write(file_text(op["rel"], v))
                     os.utime(p, (v["mtime"], v["mtime"]))
         elif k == "mkdir":
             if root:
@@ -495,6 +525,101 @@ def cyclic_cases():
          "only": None}]}]
 
 
+# ---- lazy imports: an `import` statement inside a service body, executed BETWEEN two reloads (no Lean column: the plan
+# model gets the import graph of every reload from `prog`, a function of the source text; these cases are judged by the
+# documented-behaviour oracle alone, which keeps its own account of the edges the executed statements added)
+def WL(rel, lazy, *imports):
+    return dict(W(rel, *imports), lazy=list(lazy))
+
+
+def WV(rel, *imports):
+    return dict(W(rel, *imports), val=True)
+
+
+def CALL(*calls):
+    """a step without reload: call the lazy-import services (context name, module)"""
+    return {"edits": [], "only": None, "call": [[o, lazy_svc(o, m), m] for o, m in calls]}
+
+
+def R(*edits):
+    return {"edits": list(edits), "only": None}
+
+
+def lazy_fixed_cases():
+    out = []
+    # the three steps of seeded change C10_7: a reload after a change of ANOTHER loaded module while a stays loaded;
+    # a's service imports n for the first time; n changes -> a must be re-executed and use the new n
+    out.append({"family": "lazy", "apps0": {}, "legacy": False, "steps": [
+        R(WL("a.py", ["n"]), W("b.py", (0, "m2")), WV("modules/n.py"), WV("modules/m2.py")),
+        R(WV("modules/m2.py")), CALL(("file.a", "n")), R(WV("modules/n.py")), CALL(("file.a", "n"))]})
+    # transitively: the lazily imported n imports m (while loading); m changes
+    out.append({"family": "lazy", "apps0": {}, "legacy": True, "steps": [
+        R(WL("scripts/s1.py", ["n"]), W("b.py", (0, "m2")), WV("modules/n.py", (0, "m")), WV("modules/m.py"),
+          WV("modules/m2.py")),
+        R(WV("modules/m2.py")), R(), CALL(("scripts.s1", "n")), R(WV("modules/m.py")), CALL(("scripts.s1", "n"))]})
+    # the service runs before the first reload that changes anything, then two reloads
+    out.append({"family": "lazy", "apps0": {}, "legacy": False, "steps": [
+        R(WL("a.py", ["n"]), W("b.py", (0, "m2")), WV("modules/n.py"), WV("modules/m2.py")),
+        CALL(("file.a", "n")), R(WV("modules/m2.py")), R(WV("modules/n.py")), CALL(("file.a", "n")), R(),
+        R(WV("modules/n.py")), CALL(("file.a", "n"))]})
+    # nothing the lazy importer depends on changes: it is never re-executed, its module stays loaded
+    out.append({"family": "lazy", "apps0": {}, "legacy": True, "steps": [
+        R(WL("a.py", ["n"]), W("b.py", (0, "m2")), WV("modules/n.py"), WV("modules/m2.py")),
+        R(WV("modules/m2.py")), CALL(("file.a", "n")), R(WV("modules/m2.py")), CALL(("file.a", "n")), R(),
+        CALL(("file.a", "n"))]})
+    # an app and a script import the same module lazily; a third script imports it while loading; two lazy imports in
+    # one script, of which only one has been executed when its module changes
+    out.append({"family": "lazy", "apps0": {"x2": 1}, "legacy": False, "steps": [
+        R(WL("apps/x2.py", ["n"]), WL("scripts/d/s2.py", ["n", "m2"], (0, "m")), W("c.py", (0, "p")), WV("modules/n.py"),
+          WV("modules/m2.py"), WV("modules/m.py"), WV("modules/p/__init__.py")),
+        R(WV("modules/p/__init__.py")), CALL(("apps.x2", "n")), R(WV("modules/m2.py")),
+        CALL(("scripts.d.s2", "m2"), ("scripts.d.s2", "n")), R(WV("modules/p/__init__.py")), R(WV("modules/n.py")),
+        CALL(("apps.x2", "n"), ("scripts.d.s2", "n"), ("scripts.d.s2", "m2")), R(WV("modules/m2.py")),
+        CALL(("scripts.d.s2", "m2"))]})
+    return out
+
+
+LAZY_OWNERS = ["a.py", "b.py", "scripts/s1.py", "scripts/d/s2.py", "apps/x2.py"]
+LAZY_MODS = {"m": ("modules/m.py", []), "n": ("modules/n.py", [[0, "m"]]), "m2": ("modules/m2.py", []),
+             "p": ("modules/p/__init__.py", []), "q": ("modules/q.py", [[0, "m2"]])}
+
+
+def gen_lazy_case(rng):
+    """two scripts with lazy imports, one script with a load-time import; random order of service calls and
+    (module change + default reload) steps, at least three reloads"""
+    owners = rng.sample(LAZY_OWNERS, 2)
+    first = [dict(W(rel, *imps), val=True) for rel, imps in LAZY_MODS.values()]
+    targets = {}
+    for rel in owners:
+        targets[rel] = rng.sample(sorted(LAZY_MODS), rng.choice([1, 1, 2]))
+        top = [[0, rng.choice(sorted(LAZY_MODS))]] if rng.random() < 0.4 else []
+        first.append(dict(W(rel, *top), lazy=targets[rel]))
+    first.append(W("c.py", (0, rng.choice(sorted(LAZY_MODS)))))
+    steps = [R(*first)]
+    calls = [(doc_name(comps(rel)), m) for rel in owners for m in targets[rel]]
+
+    def edit(mod):
+        rel, imps = LAZY_MODS[mod]
+        return R(dict(W(rel, *imps), val=True))
+    nrel = 0
+    for _ in range(rng.choice([5, 6, 7, 8])):
+        r = rng.random()
+        if r < 0.4:
+            steps.append(CALL(*rng.sample(calls, rng.randint(1, len(calls)))))
+        elif r < 0.85:
+            steps.append(edit(rng.choice(sorted(LAZY_MODS))))
+            nrel += 1
+        elif r < 0.93:
+            steps.append(R())
+            nrel += 1
+        else:
+            steps.append(R({"op": "touch", "rel": "c.py"}))
+            nrel += 1
+    # always end with: everything imported lazily by now, one of those modules changes, everything is used again
+    steps += [CALL(*calls), edit(rng.choice([m for _, m in calls])), CALL(*calls)]
+    return {"family": "lazy", "apps0": {"x2": rng.choice([0, 1, CFG_NONE])}, "steps": steps, "legacy": rng.random() < 0.5}
+
+
 def gen_cases(rng, tier, search):
     n_main, n_sib = (170, 40) if tier == "quick" else (2200, 500)
     if search:
@@ -507,12 +632,18 @@ def gen_cases(rng, tier, search):
         cases.append(mk_case(gen_case(rng, "main", rng.choice([3, 4, 5, 6]))))
     for i in range(n_sib):
         cases.append(mk_case(gen_case(rng, "sibrel", rng.choice([2, 3, 4]))))
+    if not search:
+        for p in lazy_fixed_cases():
+            cases.append(mk_case(p))
+    lrng = __import__("random").Random(rng.random())     # own stream: the other families keep their cases
+    for i in range((6 if tier == "quick" else 120) * (2 if search else 1)):
+        cases.append(mk_case(gen_lazy_case(lrng)))
     return cases
 
 
 def mk_case(payload):
     c = Case(payload, None, tags=(payload["family"],))
-    if payload["family"] != "cyclic":
+    if payload["family"] not in ("cyclic", "lazy"):
         c.line = model_line(payload)
     return c
 
@@ -596,8 +727,18 @@ def _run_one(payload):
             env.records.clear()
             env.log.clear()
             del loads[:]
+            uses = []
             try:
-                if st.get("fresh"):
+                if st.get("call"):
+                    # no reload: services whose body executes an `import` statement
+                    for owner, svc, mod in st["call"]:
+                        try:
+                            await env.call("pyscript", svc)
+                        except Exception as e:  # e.g. ServiceNotFound when the owner is not loaded
+                            uses.append(["raise", svc, mod, type(e).__name__])
+                        await env.settle(0)
+                    uses += [[r[2], r[3], r[4], r[5]] for r in env.records if r[1] == "use"]
+                elif st.get("fresh"):
                     # unload followed by a fresh set-up of the config entry in the same process
                     for entry in env.hass.config_entries.async_entries("pyscript"):
                         await env.hass.config_entries.async_unload(entry.entry_id)
@@ -625,7 +766,7 @@ def _run_one(payload):
                              "path": os.path.relpath(ctx.get_file_path(), root) if ctx.get_file_path() else None})
             nev += len(events)
             nerr = len([1 for l in env.log if l[1] == "ERROR"])
-            obs.append({"events": events, "ctxs": ctxs, "err": err, "nerr": nerr,
+            obs.append({"events": events, "ctxs": ctxs, "err": err, "nerr": nerr, "uses": uses,
                         "recursion": any("RecursionError" in l[2] or "maximum recursion" in l[2] for l in env.log)})
         return obs
 
@@ -678,6 +819,11 @@ def run_impl(cases):
             if st.get("fresh"):
                 prev = []     # everything was unloaded before the set-up loaded the tree again
             ev = " ".join(f"{n}:{g}" for n, g in o["events"])
+            if st.get("call"):
+                us = " ".join(":".join(str(x) for x in u) for u in o.get("uses", []))
+                blocks.append(f"call ev=({ev}) uses=({us})")
+                prev = o["ctxs"]
+                continue
             cx = " ".join(f"{x['name']}:{x['gen']}:{x['oid']}:{x['mod']}:{','.join(x['imports'])}" for x in o["ctxs"])
             if st["only"] is None:
                 d = "(" + " ".join(sorted(oracle_disc(prev, doc_entries(snap, code_view=True)))) + ")"
@@ -887,6 +1033,8 @@ def deviations(payload):
     obs = payload.get("_obs") or []
     devs = []
     prev = []
+    lazy_live = {}     # context -> modules it imported by statements executed AFTER it was loaded (the oracle's own
+    #                    account of "the import graph as of now"; forgotten when the context is executed again)
     for idx, ((st, snap, _sim), o) in enumerate(zip(walk(payload), obs)):
         if o.get("err"):
             devs.append(("harness" if o["err"].startswith("harness") else "raise", f"step {idx}: {o['err']}"))
@@ -894,13 +1042,50 @@ def deviations(payload):
         ents = doc_entries(snap)
         if st.get("fresh"):
             prev = []         # everything was unloaded before the set-up loaded the tree again
+            lazy_live.clear()
         post = {c["name"]: c for c in o["ctxs"]}
         prevd = {c["name"]: c for c in prev}
         kept = {n for n, c in prevd.items() if n in post and post[n]["oid"] == c["oid"]}
+        if st.get("call"):
+            # ---- services run between two reloads: nothing is discarded; an import statement executed now loads the
+            # module (and what it imports) if it is not loaded yet; the caller runs the source it was loaded from and
+            # sees the module that is loaded now
+            for n in sorted(set(prevd) - kept):
+                devs.append(("discarded-untouched", f"step {idx}: {n} discarded by a service call"))
+            allowed = set()
+            for owner, svc, mod in st["call"]:
+                t = "modules." + mod
+                allowed |= _import_closure(ents, t)
+                if owner not in prevd:
+                    continue
+                lazy_live.setdefault(owner, set()).add(t)
+                got = [u for u in o.get("uses", []) if u[0] == owner and u[2] == mod]
+                if not got:
+                    devs.append(("missing", f"step {idx}: service {svc} of {owner} did not run"))
+                    continue
+                u = got[-1]
+                if u[1] != prevd[owner]["gen"]:
+                    devs.append(("wrong-source", f"step {idx}: {svc} ran generation {u[1]}, {owner} was loaded from "
+                                 f"{prevd[owner]['gen']}"))
+                if t not in post or u[3] != post[t]["gen"] or (t in ents and u[3] != ents[t]["gen"]):
+                    devs.append(("wrong-source", f"step {idx}: {owner} uses generation {u[3]} of {t}; loaded: "
+                                 f"{post[t]['gen'] if t in post else None}, file: {ents[t]['gen'] if t in ents else None}"))
+            for n in sorted(set(post) - set(prevd) - allowed):
+                devs.append(("unexpected-context", f"step {idx}: {n} appeared during a service call"))
+            prev = o["ctxs"]
+            continue
+        # the import graph as of now: what the loader recorded plus the edges the oracle saw being added later
+        prev = [dict(c, imports=sorted(set(c["imports"]) | lazy_live.get(c["name"], set()))) for c in prev]
         stale = {}     # kept context -> kind of the deviation that kept it
         evnames = [n for n, _ in o["events"]]
         only = st["only"]
         required, optional, cyc = ref_load(ents)
+        for n in sorted(lazy_live):
+            if n in kept:
+                for t in lazy_live[n]:      # a kept context keeps the modules it imported at run time
+                    required |= {x for x in _import_closure(ents, t) if x in ents}
+            else:
+                del lazy_live[n]            # executed again (or gone): its run-time imports are forgotten
         sibrel_targets, sibrel_users = set(), set()
         for n, e in ents.items():
             if not e["pkg"] and in_pkg(n) and len(n.split(".")) >= 3:
@@ -977,6 +1162,11 @@ def deviations(payload):
             for n in sorted(required - set(post)):
                 if _import_closure(ents, n) & cyc:
                     devs.append(("not-loaded:cyclic-import", f"step {idx}: {n} not loaded (import cycle)"))
+                elif n not in prevd and not ents[n]["auto"] and not any(i in stale for i in _importers_closure(ents, n)) \
+                        and not any(i in post and i not in kept for i in _direct_importers(ents, n)):
+                    pass   # same rule as below, asked BEFORE the sibling-relative heuristic: a module file that was
+                    #        re-created while its only importers are kept contexts whose import was already dangling
+                    #        (they survived the deletion: C10-F1, reported at that step) is "imported again" by nobody
                 elif n in sibrel_targets or _import_closure(ents, n) & sibrel_users or \
                         any(_import_closure(ents, i) & sibrel_users for i in _importers_closure(ents, n)) or \
                         any(p.startswith(n.rsplit(".", 1)[0] + ".") and p not in ents for p in post):
@@ -1140,6 +1330,10 @@ def extra_coverage(cases):
             nsteps += 1
             for op in st["edits"]:
                 ops[op["op"]] = ops.get(op["op"], 0) + 1
+            if st.get("call"):
+                onlys["service-call-with-lazy-import"] = onlys.get("service-call-with-lazy-import", 0) + 1
+                nsteps -= 1
+                continue
             k = "fresh-setup" if st.get("fresh") else (
                 "default" if st["only"] is None else ("*" if st["only"] == "*" else "name"))
             if not st["edits"] and st["only"] is None and not st.get("fresh"):
